@@ -23,6 +23,7 @@ import (
 	"io"
 	"math"
 	"net"
+	"strings"
 	"sync"
 	"sync/atomic"
 	"time"
@@ -605,7 +606,8 @@ func (c *CqlServerConnection) readFrame(source io.Reader) (abort bool) {
 		abort = c.reportConnectionFailure(err, true)
 	} else {
 		if startup, ok := incoming.Body.Message.(*message.Startup); ok {
-			c.compression = startup.GetCompression()
+			// the protocol specifications spell the algorithm names in lower case ("lz4", "snappy")
+			c.compression = primitive.Compression(strings.ToUpper(string(startup.GetCompression())))
 			c.frameCodec = frame.NewCodecWithCompression(NewBodyCompressor(c.compression))
 			c.segmentCodec = segment.NewCodecWithCompression(NewPayloadCompressor(c.compression))
 		}
